@@ -87,19 +87,29 @@ Theorem C09_delete_batch : forall key open dec k ids st,
 Proof. exact c_delete_all. Qed.
 Print Assumptions C09_delete_batch.
 
-(* List over the file names of the directory: onDiskStore.List yields one entry for every regular file and filters nothing
-   (extracted: list_yields_every_file).  A directory holding exactly the files of the IDs [ids] (files are named
-   id.String(), which parses back) lists exactly [ids] - also the zero ID (the nil UUID is a valid ID). *)
-Theorem C09_list_yields_every_stored_id : forall (name : Type) (str : N -> name) (parse : name -> option N),
+(* List over the file names of the directory.  Extracted: List yields every regular file whose name is an ID
+   (list_yields_every_file) and skips files whose name is no ID (list_skips_foreign_names, C09-fix-3).  A directory holding
+   the files of stored IDs (named id.String(), which parses back) and any other files, in any order, lists exactly the
+   stored IDs - the zero ID (the nil UUID is a valid ID) included, nothing for the foreign files. *)
+Theorem C09_list_yields_exactly_the_stored_ids : forall (name : Type) (str : N -> name) (parse : name -> option N),
   (forall i, parse (str i) = Some i) ->
-  forall ids, list_names parse list_yields_every_file (map str ids) = ids.
+  forall (entries : list (N + name)), (forall f, In (inr f) entries -> parse f = None) ->
+  list_names parse list_yields_every_file list_skips_foreign_names
+             (map (fun e => match e with inl i => str i | inr f => f end) entries)
+  = flat_map (fun e => match e with inl i => [i] | inr _ => [] end) entries.
 Proof. exact list_names_exact. Qed.
-Print Assumptions C09_list_yields_every_stored_id.
+Print Assumptions C09_list_yields_exactly_the_stored_ids.
 
 Theorem C09_list_dropping_zero_id_refuted : exists (ids : list N),
-  list_names (fun n : N => Some n) false (map (fun i => i) ids) <> ids.
+  list_names (fun n : N => Some n) false true ids <> ids.
 Proof. exact list_names_filter_refuted. Qed.
 Print Assumptions C09_list_dropping_zero_id_refuted.
+
+(* the List before C09-fix-3: a file named 9 that is no ID is listed as the zero ID *)
+Theorem C09_list_foreign_file_as_zero_id_refuted :
+  list_names (fun n : N => if N.eqb n 9 then None else Some n) true false [5%N; 9%N] = [5%N; 0%N].
+Proof. exact list_names_foreign_refuted. Qed.
+Print Assumptions C09_list_foreign_file_as_zero_id_refuted.
 
 (* every history of Set/Delete on the same and on different IDs (Get/Set/Delete of one ID are atomic under the per-ID
    lock): each ID reads back the bytes of its last Set, or "no file" after a Delete; List yields exactly the stored
